@@ -394,8 +394,79 @@ class LinkSystem(System):
                    nontrivial=len(exp) > 0, violations=viol[:3])
 
 
+class MultiLinkSystem(LinkSystem):
+    """Several inv: links in ONE document: each link must be resolved as if it were alone (inventories are loaded once per document)."""
+
+    name = "links-sequence"
+    description = ("documents with 2 (thorough: up to 3) inv: links from a 10-link menu that restricts inventory / domain / type differently; "
+                   "every link's reference, text and warnings must equal those of the same link alone in a document")
+
+    MENU = [
+        ["k2", None, None, "only2", "auto"], ["k1", None, None, "sec-one", "auto"], [None, None, None, "sec-one", "auto"],
+        ["k2", None, None, "sec-one", "empty"], ["k1", "py", None, "mod.func", "auto"], [None, "std", "label", "sec*", "auto"],
+        ["zz", None, None, "sec-one", "auto"], ["k*", "std", None, "nomatch", "auto"], [None, None, "func*", "mod.func", "explicit"],
+        ["k1", None, None, "sp ace", "auto"],
+    ]
+
+    def bounds(self):
+        return {"links_per_document": 2 if self.tier == "quick" else 3, "menu": len(self.MENU)}
+
+    def alphabet(self):
+        return self.MENU
+
+    def rule(self):
+        return "one case = one ordered tuple of links; non-trivial = at least one link matches an entry"
+
+    def cases(self):
+        n = len(self.MENU)
+        for a in range(n):
+            for b in range(n):
+                yield [a, b]
+        if self.tier != "quick":
+            for a in range(n):
+                for b in range(n):
+                    for c in range(n):
+                        yield [a, b, c]
+
+    def link_text(self, q):
+        i, d, t, n, form = q
+        dest = self.spell(i, d, t, n)
+        return {"auto": f"<{dest}>", "explicit": f"[my *text*]({dest})", "empty": f"[]({dest})"}[form]
+
+    def observe(self, links):
+        from docutils import nodes
+
+        from ..drivers import docutils_doctree, parse_warnings
+
+        text = "".join(f"P{j} {self.link_text(q)} E{j}\n\n" for j, q in enumerate(links))
+        doc, warn = docutils_doctree(text, {"myst_inventories": self.setting})
+        ws = parse_warnings(warn)
+        out = []
+        paras = [p for p in doc.findall(nodes.paragraph) if p.astext().startswith("P")]
+        for j, q in enumerate(links):
+            para = paras[j] if j < len(paras) else None
+            refs = [(r.get("refuri"), r.astext()) for r in para.findall(nodes.reference)] if para is not None else None
+            line = 1 + 2 * j
+            out.append((refs, sorted((w["tag"], w["level"]) for w in ws if w["line"] == line)))
+        return text, out, warn
+
+    def run(self, idxs):
+        links = [self.MENU[i] for i in idxs]
+        text, together, warn = self.observe(links)
+        viol = []
+        nt = False
+        for j, q in enumerate(links):
+            _, alone, _ = self.observe([q])
+            nt = nt or bool(alone[0][0])
+            if together[j] != alone[0]:
+                viol.append(violation("link-sequence", {"clause": "link-sequence", "position": j},
+                                      f"link #{j} {self.link_text(q)} gives {together[j]} after {[self.link_text(x) for x in links[:j]]}, "
+                                      f"but {alone[0]} when alone in a document", text=text, warnings=warn))
+        return Obs(digest=repr(together), nontrivial=nt, violations=viol[:2], transitions=len(links), validated=len(links))
+
+
 def systems(tier):
-    return [PairSystem(tier), CacheSystem(tier), FilterSystem(tier), LinkSystem(tier)]
+    return [PairSystem(tier), CacheSystem(tier), FilterSystem(tier), LinkSystem(tier), MultiLinkSystem(tier)]
 
 
 def vacuity(results):
